@@ -145,11 +145,17 @@ def rand_points(rng, n=None, z=None):
 
 
 def rand_pol(rng):
-    k = rng.integers(0, 4)
+    k = rng.integers(0, 5)
     if k == 0:
         return (1.0, 0.0)
     if k == 1:
         return (0.0, 1.0)
+    if k == 4:
+        # plain Python integers, not along an axis: (1, 1), (3, -4), ... are as legitimate as floats
+        while True:
+            a, b = int(rng.integers(-4, 5)), int(rng.integers(-4, 5))
+            if a != 0 and b != 0:
+                return (a, b)
     a = float(rng.uniform(0, 2 * math.pi))
     s = float(10.0 ** rng.uniform(-1, 1))
     return (s * math.cos(a), s * math.sin(a))
